@@ -296,6 +296,16 @@ def check(P, R):
     rets = [n for n in walk_shallow(pm.node) if isinstance(n, ast.Return)]
     ok = bool(rets) and all(isinstance(r.value, ast.Call) and call_attr(r.value) == 'upper' for r in rets)
     R.ob('C02.c', pm, rets[0] if rets else pm.node, ok, text='request.method upper-cased', detail='' if ok else 'the request verb is not upper-cased')
+    # ... and read from the environ at dispatch time: a memoised verb is the verb of the first read, not the one the request carries when it is routed
+    decos = [src(d) for d in pm.node.decorator_list]
+    cached = [d for d in decos if d.split('(')[0].split('.')[-1] in ('cache_in', 'cached_property', 'lru_cache', 'cache')]
+    if cached or decos == ['property']:
+        R.ob('C02.a', pm, pm.node, not cached, text='request.method is computed from the environ on every read', detail='' if not cached else
+             f'request.method is memoised by `{cached[0]}` and nothing drops the memo when REQUEST_METHOD changes: after a before_request hook that reads the verb and '
+             f'then rewrites it (method override), the request is routed by the verb of the first read',
+             why='the request goes to the handler registered for its method', key_extra='method-fresh')
+    else:
+        R.undecided('C02.a', pm, pm.node, 'request.method', f'decorators {decos} are neither a plain property nor a known memoiser')
     h = P.func(f'{OM}:Ombott._handle')
     tc = T.calls_to(h, 'self.to_route')
     def _req_attr(e, attr, at):
